@@ -53,3 +53,6 @@ pub broadcast group str_key_model { axiom_str_borrowed_key, axiom_str_borrowed_v
 pub proof fn axiom_vec_len_bound<T>(v: &Vec<T>)
     ensures v@.len() <= usize::MAX
 {}
+// A-STD (trusted): Vec::extend only appends
+pub assume_specification<T, A: std::alloc::Allocator, I: IntoIterator<Item = T>> [<Vec<T, A> as Extend<T>>::extend] (v: &mut Vec<T, A>, iter: I)
+    ensures final(v)@.len() >= old(v)@.len(), forall|i: int| 0 <= i < old(v)@.len() ==> #[trigger] final(v)@[i] == old(v)@[i];
